@@ -1918,7 +1918,12 @@ static int64_t eval3(Node *node, char ***label) {
   case ND_LOGOR:
     return eval(node->lhs) || eval(node->rhs);
   case ND_CAST: {
+    // A conversion to _Bool is a comparison against zero, not a truncation.
+    if (node->ty->kind == TY_BOOL && is_flonum(node->lhs->ty))
+      return eval_double(node->lhs) != 0;
     int64_t val = eval2(node->lhs, label);
+    if (node->ty->kind == TY_BOOL)
+      return val != 0;
     if (is_integer(node->ty)) {
       switch (node->ty->size) {
       case 1: return node->ty->is_unsigned ? (uint8_t)val : (int8_t)val;
